@@ -603,6 +603,17 @@ def flatten_generator(cfg: CFG, at: int, gen: ast.AST, depth: int = 4) -> ast.AS
             gen.generators = [ast.comprehension(target=inner.target, iter=inner.iter, ifs=new_ifs, is_async=0)]
             continue
         break
+    # `for c in chain.from_iterable(E for g in S)` reads as the nested `for g in S for c in E` (same elements, same order)
+    out = []
+    for g0 in gen.generators:
+        it = g0.iter
+        if isinstance(it, ast.Call) and len(it.args) == 1 and not it.keywords and norm(it.func) in ("chain.from_iterable", "itertools.chain.from_iterable") \
+                and isinstance(it.args[0], (ast.GeneratorExp, ast.ListComp)):
+            out.extend(copy.deepcopy(it.args[0].generators))
+            out.append(ast.comprehension(target=g0.target, iter=copy.deepcopy(it.args[0].elt), ifs=g0.ifs, is_async=0))
+        else:
+            out.append(g0)
+    gen.generators = out
     return gen
 
 
